@@ -107,6 +107,10 @@ var ExcludedForms = []ExcludedForm{
 	{"dash_anon_struct", "DashA%d struct{ Q string } `parquet:\"-\"`", ""},
 	{"dash_func_named_params", "DashG%d func(X int32, Y string) bool `parquet:\"-\"`", ""},
 	{"multi_name_unexported", "ma%d, mb%d int32", ""},
+	// the excluded field's own type declares TAGGED fields
+	{"dash_anon_struct_tagged", "DashB%d struct {\n\t\tA int32 `parquet:\"a\"`\n\t} `parquet:\"-\"`", ""},
+	{"dash_ptr_anon_struct_tagged", "DashP%d *struct {\n\t\tZ string `parquet:\"zz\" json:\"z\"`\n\t} `parquet:\"-\"`", ""},
+	{"lower_slice_anon_struct_tagged", "r%d []struct {\n\t\tK float64 `parquet:\"k\"`\n\t}", ""},
 	// "share": the excluded name is ADDED TO THE DECLARATION of the exported field that follows
 	// (F1 int32 becomes F1, hid1 int32); at the end of a struct it degrades to an inserted field
 	{"multi_name_share", "hid%d", ""},
